@@ -55,15 +55,15 @@ type histEv struct {
 }
 
 type concRun struct {
-	w      *World
-	seq    int64
-	hist   []histEv
-	acked  map[string]map[string]bool   // repo -> manifest digests acknowledged (201)
-	tagged map[string]map[string][]string // repo -> tag -> digests pushed under it (acknowledged or in flight)
-	delMan map[string]map[string]bool   // repo -> digests some client tries to delete
-	delTag map[string]map[string]bool
-	subj   map[string]map[string]string // repo -> artifact digest -> subject
-	tagAck map[string]bool              // repo + " " + tag: some push under this tag was acknowledged
+	w        *World
+	seq      int64
+	hist     []histEv
+	acked    map[string]map[string]bool     // repo -> manifest digests acknowledged (201)
+	tagged   map[string]map[string][]string // repo -> tag -> digests pushed under it (acknowledged or in flight)
+	delMan   map[string]map[string]bool     // repo -> digests some client tries to delete
+	delTag   map[string]map[string]bool
+	subj     map[string]map[string]string // repo -> artifact digest -> subject
+	tagAck   map[string]bool              // repo + " " + tag: some push under this tag was acknowledged
 	inflight int
 	closing  bool
 	done     []bool
